@@ -1,6 +1,703 @@
 package main
 
-// concretize: derive an in-package Go test from the solver's model (see replay_gen.go once built)
-func (u *Unit) concretize(o *Obl) (string, bool) { return "", false }
+// Replay of a refuted obligation against the real code.
+//
+// The failed query is asked again with a list of probe terms (get-value) derived from the types of the function's
+// receiver and parameters: which dynamic type an interface holds, whether a pointer is nil, the fields of the
+// struct it points to in the entry heap, lengths and leading elements of slices. From the answers an in-package Go
+// test is written that builds those inputs and calls the real function; it is injected with `go test -overlay` and
+// the outcome is observed. Only obligations whose violation is a run-time panic can be judged this way (a
+// postcondition cannot be evaluated in Go); everything else, and every input shape the generator cannot build
+// (functions, channels, reflect.Value, non-empty maps, opaque external types), is reported as not replayed.
 
-func runReplayTest(repo string, u *Unit, src string) (string, string) { return "skipped", "" }
+import (
+	"context"
+	"fmt"
+	"go/types"
+	"math"
+	"os"
+	"os/exec"
+	"path/filepath"
+	"sort"
+	"strconv"
+	"strings"
+	"time"
+)
+
+type replayGen struct {
+	u       *Unit
+	q       string
+	probes  []string
+	probeIx map[string]int
+	pkg     *types.Package
+	imports map[string]string // path -> name
+	approx  []string
+	fail    string
+	// extra constraints for the probing query: interface values hold nil or one of the dynamic types the generator
+	// can build (narrows the search for a failing input; a model of the narrowed query is still a counterexample)
+	constraints []string
+}
+
+type render func(vals []string) string
+
+func (g *replayGen) probe(t string) int {
+	if i, ok := g.probeIx[t]; ok {
+		return i
+	}
+	g.probeIx[t] = len(g.probes)
+	g.probes = append(g.probes, t)
+	return len(g.probes) - 1
+}
+
+func (g *replayGen) declared(sym string) bool {
+	return strings.Contains(g.q, "(declare-fun "+sym+" ") || strings.Contains(g.q, "(declare-const "+sym+" ")
+}
+
+func (g *replayGen) typeName(t types.Type) string {
+	return types.TypeString(t, func(p *types.Package) string {
+		if p == g.pkg {
+			return ""
+		}
+		g.imports[p.Path()] = p.Name()
+		return p.Name()
+	})
+}
+
+func smtInt(v string) (int64, bool) {
+	v = strings.TrimSpace(v)
+	neg := false
+	if strings.HasPrefix(v, "(-") {
+		neg = true
+		v = strings.TrimSpace(strings.TrimSuffix(strings.TrimPrefix(v, "(-"), ")"))
+	}
+	n, err := strconv.ParseInt(v, 10, 64)
+	if err != nil {
+		un, err2 := strconv.ParseUint(v, 10, 64)
+		if err2 != nil {
+			return 0, false
+		}
+		return int64(un), !neg
+	}
+	if neg {
+		n = -n
+	}
+	return n, true
+}
+
+func smtUint(v string) (uint64, bool) {
+	un, err := strconv.ParseUint(strings.TrimSpace(v), 10, 64)
+	return un, err == nil
+}
+
+// (fp #b0 #b10000000000 #x0000000000000) and the special values
+func smtFloat(v string, bits int) (string, bool) {
+	v = strings.TrimSpace(v)
+	switch {
+	case strings.Contains(v, "NaN"):
+		return "math.NaN()", true
+	case strings.Contains(v, "+oo"):
+		return "math.Inf(1)", true
+	case strings.Contains(v, "-oo"):
+		return "math.Inf(-1)", true
+	case strings.Contains(v, "+zero"):
+		return "0.0", true
+	case strings.Contains(v, "-zero"):
+		return "math.Copysign(0, -1)", true
+	}
+	if !strings.HasPrefix(v, "(fp ") {
+		return "", false
+	}
+	parts := strings.Fields(strings.TrimSuffix(strings.TrimPrefix(v, "(fp "), ")"))
+	if len(parts) != 3 {
+		return "", false
+	}
+	bitstr := ""
+	for _, p := range parts {
+		switch {
+		case strings.HasPrefix(p, "#b"):
+			bitstr += p[2:]
+		case strings.HasPrefix(p, "#x"):
+			for _, c := range p[2:] {
+				n, err := strconv.ParseUint(string(c), 16, 8)
+				if err != nil {
+					return "", false
+				}
+				bitstr += fmt.Sprintf("%04b", n)
+			}
+		default:
+			return "", false
+		}
+	}
+	if len(bitstr) != bits {
+		return "", false
+	}
+	n, err := strconv.ParseUint(bitstr, 2, 64)
+	if err != nil {
+		return "", false
+	}
+	if bits == 64 {
+		return fmt.Sprintf("math.Float64frombits(0x%x) /* %v */", n, math.Float64frombits(n)), true
+	}
+	return fmt.Sprintf("math.Float32frombits(0x%x)", n), true
+}
+
+func (g *replayGen) zero(t types.Type) string {
+	switch tt := t.Underlying().(type) {
+	case *types.Basic:
+		switch {
+		case tt.Info()&types.IsBoolean != 0:
+			return g.conv(t, "false")
+		case tt.Info()&types.IsString != 0:
+			return g.conv(t, `""`)
+		default:
+			return g.conv(t, "0")
+		}
+	case *types.Struct:
+		return g.typeName(t) + "{}"
+	}
+	return "nil"
+}
+
+func (g *replayGen) conv(t types.Type, lit string) string {
+	if b, ok := t.(*types.Basic); ok && (b.Kind() == types.Bool || b.Kind() == types.String || b.Kind() == types.UntypedNil) {
+		return lit
+	}
+	return g.typeName(t) + "(" + lit + ")"
+}
+
+// walk registers the probes for a value of Go type t denoted by term and returns its renderer
+func (g *replayGen) walk(term string, t types.Type, depth int) render {
+	u := g.u
+	w := u.w
+	if isReflectValue(t) {
+		g.fail = "reflect.Value input"
+		return func([]string) string { return "reflect.Value{}" }
+	}
+	switch tt := t.Underlying().(type) {
+	case *types.Basic:
+		switch {
+		case tt.Info()&types.IsBoolean != 0:
+			p := g.probe(term)
+			return func(v []string) string { return g.conv(t, strings.TrimSpace(v[p])) }
+		case tt.Info()&types.IsInteger != 0:
+			p := g.probe(term)
+			return func(v []string) string {
+				if tt.Info()&types.IsUnsigned != 0 {
+					if n, ok := smtUint(v[p]); ok {
+						return g.conv(t, fmt.Sprintf("%d", n))
+					}
+				}
+				n, ok := smtInt(v[p])
+				if !ok {
+					g.fail = "integer value " + v[p]
+				}
+				return g.conv(t, fmt.Sprintf("%d", n))
+			}
+		case tt.Info()&types.IsFloat != 0:
+			p := g.probe(term)
+			bits := 64
+			if tt.Kind() == types.Float32 {
+				bits = 32
+			}
+			return func(v []string) string {
+				s, ok := smtFloat(v[p], bits)
+				if !ok {
+					g.fail = "float value " + v[p]
+					return g.conv(t, "0")
+				}
+				g.imports["math"] = "math"
+				return g.conv(t, s)
+			}
+		case tt.Info()&types.IsString != 0:
+			pl := g.probe("(strlen " + term + ")")
+			type cand struct {
+				lit string
+				p   int
+			}
+			var cands []cand
+			var lits []string
+			for lit := range w.strLits {
+				lits = append(lits, lit)
+			}
+			sort.Strings(lits)
+			for _, lit := range lits {
+				c := w.strLits[lit]
+				if g.declared(c) && len(cands) < 60 {
+					cands = append(cands, cand{lit, g.probe("(= " + term + " " + c + ")")})
+				}
+			}
+			return func(v []string) string {
+				for _, c := range cands {
+					if strings.TrimSpace(v[c.p]) == "true" {
+						return g.conv(t, strconv.Quote(c.lit))
+					}
+				}
+				n, ok := smtInt(v[pl])
+				if !ok || n < 0 || n > 4096 {
+					n = 1
+				}
+				g.approx = append(g.approx, "string contents are not part of the model: a string of the model's length is used")
+				return g.conv(t, strconv.Quote(strings.Repeat("a", int(n))))
+			}
+		}
+	case *types.Struct:
+		if n, ok := t.(*types.Named); ok && n.Obj().Pkg() != nil && !isOwnPkg(n.Obj().Pkg().Path()) {
+			g.approx = append(g.approx, "external struct "+g.typeName(t)+" left at its zero value")
+			return func([]string) string { return g.typeName(t) + "{}" }
+		}
+		type fld struct {
+			name string
+			r    render
+		}
+		var fs []fld
+		for i := 0; i < tt.NumFields(); i++ {
+			f := tt.Field(i)
+			if f.Name() == "_" {
+				continue
+			}
+			if !g.supported(f.Type()) {
+				g.approx = append(g.approx, "field "+f.Name()+" of "+g.typeName(t)+" left at its zero value")
+				continue
+			}
+			fs = append(fs, fld{f.Name(), g.walk(w.fieldSel(t, i, term), f.Type(), depth)})
+		}
+		return func(v []string) string {
+			var parts []string
+			for _, f := range fs {
+				parts = append(parts, f.name+": "+f.r(v))
+			}
+			return g.typeName(t) + "{" + strings.Join(parts, ", ") + "}"
+		}
+	case *types.Pointer:
+		pn := g.probe("(= " + term + " nil)")
+		el := tt.Elem()
+		if depth <= 0 || !g.supported(el) {
+			return func(v []string) string {
+				if strings.TrimSpace(v[pn]) != "true" {
+					g.approx = append(g.approx, "pointer to "+g.typeName(el)+" beyond the depth bound: a zero value is used")
+					return "new(" + g.typeName(el) + ")"
+				}
+				return "nil"
+			}
+		}
+		var key string
+		if at, ok := el.Underlying().(*types.Array); ok {
+			key = u.keyA(at.Elem())
+			_ = key
+			return func(v []string) string {
+				if strings.TrimSpace(v[pn]) == "true" {
+					return "nil"
+				}
+				return "new(" + g.typeName(el) + ")"
+			}
+		}
+		key = u.keyT(el)
+		h0 := quote("H0:" + key)
+		var child render
+		if g.declared(h0) {
+			child = g.walk(fmt.Sprintf("(select %s %s)", h0, term), el, depth-1)
+		} else {
+			child = func([]string) string { return g.zero(el) }
+		}
+		return func(v []string) string {
+			if strings.TrimSpace(v[pn]) == "true" {
+				return "nil"
+			}
+			c := child(v)
+			if _, isStruct := el.Underlying().(*types.Struct); isStruct && strings.HasSuffix(c, "}") {
+				return "&" + c
+			}
+			return "govcPtr[" + g.typeName(el) + "](" + c + ")"
+		}
+	case *types.Interface:
+		pnil := g.probe(fmt.Sprintf("(= (ityp %s) T_nil)", term))
+		type cand struct {
+			p int
+			t types.Type
+			r render
+		}
+		var cands []cand
+		var keys []string
+		for k := range w.tags {
+			keys = append(keys, k)
+		}
+		sort.Strings(keys)
+		for _, k := range keys {
+			ct := w.tagTypes[k]
+			if ct == nil || !g.declared(w.tags[k]) || !g.supported(ct) || len(cands) >= 40 {
+				continue
+			}
+			if _, isIface := ct.Underlying().(*types.Interface); isIface {
+				continue
+			}
+			if !types.AssignableTo(ct, t) {
+				continue
+			}
+			_, ub := w.boxFn(w.sortOf(ct))
+			var child render
+			if g.declared(ub) && depth > 0 {
+				child = g.walk(fmt.Sprintf("(%s (ival %s))", ub, term), ct, depth-1)
+			} else {
+				// the value inside is not constrained by the query: any value of that type will do
+				cct := ct
+				child = func([]string) string {
+					if pt, ok := cct.Underlying().(*types.Pointer); ok {
+						return "new(" + g.typeName(pt.Elem()) + ")"
+					}
+					return g.zero(cct)
+				}
+			}
+			cands = append(cands, cand{g.probe(fmt.Sprintf("(= (ityp %s) %s)", term, w.tags[k])), ct, child})
+		}
+		alts := []string{fmt.Sprintf("(= (ityp %s) T_nil)", term)}
+		for _, c := range cands {
+			alts = append(alts, g.probes[c.p])
+		}
+		g.constraints = append(g.constraints, or(alts...))
+		return func(v []string) string {
+			if strings.TrimSpace(v[pnil]) == "true" {
+				return "nil"
+			}
+			for _, c := range cands {
+				if strings.TrimSpace(v[c.p]) == "true" {
+					return g.typeName(t) + "(" + c.r(v) + ")"
+				}
+			}
+			g.fail = "an interface value whose dynamic type the generator cannot build"
+			return "nil"
+		}
+	case *types.Slice:
+		pl := g.probe("(slen " + term + ")")
+		key := u.keyA(tt.Elem())
+		h0 := quote("H0:" + key)
+		var els []render
+		if g.declared(h0) && depth > 0 && g.supported(tt.Elem()) {
+			for i := 0; i < 3; i++ {
+				els = append(els, g.walk(fmt.Sprintf("(select (select %s (sdata %s)) (+ (soff %s) %d))", h0, term, term, i), tt.Elem(), depth-1))
+			}
+		}
+		return func(v []string) string {
+			n, ok := smtInt(v[pl])
+			if !ok || n < 0 || n > 100000 {
+				g.fail = "slice length " + v[pl]
+				return "nil"
+			}
+			if n == 0 {
+				return g.typeName(t) + "{}"
+			}
+			var parts []string
+			for i := 0; i < int(n) && i < len(els); i++ {
+				parts = append(parts, els[i](v))
+			}
+			s := g.typeName(t) + "{" + strings.Join(parts, ", ") + "}"
+			if int(n) > len(parts) {
+				s = fmt.Sprintf("append(%s, make(%s, %d)...)", s, g.typeName(t), int(n)-len(parts))
+			}
+			return s
+		}
+	case *types.Map:
+		pn := g.probe("(= " + term + " nil)")
+		_, _, kl := u.regM(tt)
+		h0 := quote("H0:" + kl)
+		pl := -1
+		if g.declared(h0) {
+			pl = g.probe(fmt.Sprintf("(select %s %s)", h0, term))
+		}
+		return func(v []string) string {
+			if strings.TrimSpace(v[pn]) == "true" {
+				return g.typeName(t) + "(nil)"
+			}
+			if pl >= 0 {
+				if n, ok := smtInt(v[pl]); ok && n > 0 {
+					g.fail = "a non-empty map input (the keys of a map are not enumerated from the model)"
+				}
+			}
+			return g.typeName(t) + "{}"
+		}
+	}
+	g.fail = "input of type " + g.typeName(t)
+	return func([]string) string { return "nil" }
+}
+
+func (g *replayGen) supported(t types.Type) bool {
+	if isReflectValue(t) {
+		return false
+	}
+	switch tt := t.Underlying().(type) {
+	case *types.Basic:
+		return tt.Kind() != types.UnsafePointer && tt.Info()&types.IsComplex == 0
+	case *types.Struct, *types.Pointer, *types.Interface, *types.Slice, *types.Map:
+		return true
+	}
+	return false
+}
+
+// concretize: derive an in-package Go test from the solver's model. Returns the test source.
+func (u *Unit) concretize(o *Obl) (string, bool) {
+	fn := u.fun
+	u.replayWhy = ""
+	if fn == nil || fn.Pkg == nil && fn.Origin() == nil || !panicClass[o.Class] || o.Class == "pre" {
+		u.replayWhy = "only obligations whose violation is a run-time panic can be judged by running the code (class " + o.Class + ")"
+		return "", false
+	}
+	pkg := fn.Pkg
+	if pkg == nil {
+		pkg = fn.Origin().Pkg
+	}
+	if pkg == nil || fn.Parent() != nil {
+		return "", false
+	}
+	g := &replayGen{u: u, probeIx: map[string]int{}, pkg: pkg.Pkg, imports: map[string]string{}}
+	g.q = u.buildQuery(o, true)
+	var rs []render
+	var names []string
+	for _, p := range fn.Params {
+		if !g.supported(p.Type()) {
+			// functions, channels ...: a nil argument
+			rs = append(rs, func([]string) string { return "nil" })
+			g.approx = append(g.approx, "parameter "+p.Name()+" of unsupported type: nil is passed")
+		} else if !g.declared(quote("p:" + p.Name())) {
+			// the parameter does not occur in the failed query: any value will do
+			pt := p.Type()
+			rs = append(rs, func([]string) string { return g.zero(pt) })
+		} else {
+			rs = append(rs, g.walk(quote("p:"+p.Name()), p.Type(), 3))
+		}
+		names = append(names, p.Name())
+	}
+	if g.fail != "" || len(g.probes) == 0 {
+		u.replayWhy = "input shape: " + g.fail
+		return "", false
+	}
+	// ask the model
+	i := strings.LastIndex(g.q, "(check-sat)")
+	if i < 0 {
+		return "", false
+	}
+	var sb strings.Builder
+	sb.WriteString(g.q[:i])
+	for _, c := range g.constraints {
+		sb.WriteString("(assert " + c + ")\n")
+	}
+	sb.WriteString("(check-sat)\n")
+	for _, p := range g.probes {
+		sb.WriteString("(get-value (" + p + "))\n")
+	}
+	dir, _ := os.MkdirTemp("", "govc-replay")
+	defer os.RemoveAll(dir)
+	file := filepath.Join(dir, "probe.smt2")
+	os.WriteFile(file, []byte(sb.String()), 0o644)
+	res := runSolver(context.Background(), solverSpec{name: "z3-new"}, file, 20*time.Second)
+	if res.status != "sat" {
+		u.replayWhy = "the probing query did not return a model: " + res.status + " " + trunc(res.out, 200)
+		return "", false
+	}
+	lines := strings.SplitN(res.out, "\n", 2)
+	if len(lines) < 2 {
+		return "", false
+	}
+	vals := splitGetValues(lines[1], len(g.probes))
+	if len(vals) != len(g.probes) {
+		u.replayWhy = fmt.Sprintf("could not parse the probe answers (%d of %d)", len(vals), len(g.probes))
+		return "", false
+	}
+	var args []string
+	for _, r := range rs {
+		args = append(args, r(vals))
+	}
+	if g.fail != "" {
+		u.replayWhy = "input shape: " + g.fail
+		return "", false
+	}
+	// the call
+	call := ""
+	name := fn.Name()
+	if j := strings.Index(name, "["); j > 0 && fn.Signature.Recv() != nil {
+		name = name[:j]
+	}
+	if fn.Signature.Recv() != nil {
+		call = fmt.Sprintf("recv.%s(%s)", name, strings.Join(names[1:], ", "))
+		names[0] = "recv"
+	} else {
+		call = fmt.Sprintf("%s(%s)", name, strings.Join(names, ", "))
+		if len(fn.TypeArgs()) > 0 {
+			var tas []string
+			for _, ta := range fn.TypeArgs() {
+				tas = append(tas, g.typeName(ta))
+			}
+			base := name
+			if j := strings.Index(base, "["); j > 0 {
+				base = base[:j]
+			}
+			call = fmt.Sprintf("%s[%s](%s)", base, strings.Join(tas, ", "), strings.Join(names, ", "))
+		}
+	}
+	var decl strings.Builder
+	for i, a := range args {
+		fmt.Fprintf(&decl, "\tvar %s %s = %s\n\t_ = %s\n", names[i], g.typeName(fn.Params[i].Type()), a, names[i])
+	}
+	var imps []string
+	for path := range g.imports {
+		imps = append(imps, path)
+	}
+	sort.Strings(imps)
+	var ib strings.Builder
+	for _, p := range imps {
+		fmt.Fprintf(&ib, "\t%q\n", p)
+	}
+	notes := ""
+	seen := map[string]bool{}
+	for _, a := range g.approx {
+		if !seen[a] {
+			seen[a] = true
+			notes += "// approximation: " + a + "\n"
+		}
+	}
+	src := fmt.Sprintf(`package %s
+
+// generated by govc from the solver's counterexample of %s
+%s
+import (
+	"fmt"
+	"testing"
+%s)
+
+func govcPtr[T any](v T) *T { return &v }
+
+func TestGovcReplay(t *testing.T) {
+	defer func() {
+		if r := recover(); r != nil {
+			fmt.Printf("GOVC-REPLAY panicked: %%.300v\n", r)
+			return
+		}
+		fmt.Println("GOVC-REPLAY returned normally")
+	}()
+%s	%s
+}
+`, pkg.Pkg.Name(), o.Name, notes, ib.String(), decl.String(), call)
+	return src, true
+}
+
+// splitGetValues: z3 answers each (get-value (t)) with ((t v)); returns the v's in order
+func splitGetValues(out string, n int) []string {
+	var vals []string
+	depth := 0
+	start := -1
+	inbar := false
+	for i := 0; i < len(out) && len(vals) < n; i++ {
+		c := out[i]
+		if c == '|' {
+			inbar = !inbar
+		}
+		if inbar {
+			continue
+		}
+		switch c {
+		case '(':
+			if depth == 0 {
+				start = i
+			}
+			depth++
+		case ')':
+			depth--
+			if depth == 0 && start >= 0 {
+				item := out[start+2 : i-1] // strip "((" and "))"
+				// item = "<term> <value>": the value is the last top-level s-expression
+				vals = append(vals, lastSexp(item))
+				start = -1
+			}
+		}
+	}
+	return vals
+}
+
+func lastSexp(s string) string {
+	s = strings.TrimSpace(s)
+	if strings.HasSuffix(s, ")") {
+		d := 0
+		inbar := false
+		for i := len(s) - 1; i >= 0; i-- {
+			c := s[i]
+			if c == '|' {
+				inbar = !inbar
+			}
+			if inbar {
+				continue
+			}
+			if c == ')' {
+				d++
+			}
+			if c == '(' {
+				d--
+				if d == 0 {
+					return s[i:]
+				}
+			}
+		}
+		return s
+	}
+	if strings.HasSuffix(s, "|") {
+		j := strings.LastIndex(s[:len(s)-1], "|")
+		if j >= 0 {
+			return s[j:]
+		}
+	}
+	j := strings.LastIndexAny(s, " \n\t")
+	return s[j+1:]
+}
+
+// runReplayTest injects the generated test into the package of the unit's function and runs it against repo
+func runReplayTest(repo string, u *Unit, src string) (string, string) {
+	fn := u.fun
+	pkg := fn.Pkg
+	if pkg == nil && fn.Origin() != nil {
+		pkg = fn.Origin().Pkg
+	}
+	if pkg == nil {
+		return "skipped", "no package"
+	}
+	// directory of the package: from a source file of the package
+	pos := fn.Pos()
+	if !pos.IsValid() && fn.Origin() != nil {
+		pos = fn.Origin().Pos()
+	}
+	file := u.eng.prog.Fset.Position(pos).Filename
+	if file == "" {
+		return "skipped", "no source position"
+	}
+	pdir := filepath.Dir(file)
+	// module root: nearest go.mod upwards
+	mod := pdir
+	for {
+		if _, err := os.Stat(filepath.Join(mod, "go.mod")); err == nil {
+			break
+		}
+		parent := filepath.Dir(mod)
+		if parent == mod {
+			return "skipped", "no go.mod"
+		}
+		mod = parent
+	}
+	rel, _ := filepath.Rel(mod, pdir)
+	dir, _ := os.MkdirTemp("", "govc-replay")
+	defer os.RemoveAll(dir)
+	tf := filepath.Join(dir, "replay_test.go")
+	os.WriteFile(tf, []byte(src), 0o644)
+	ov := filepath.Join(dir, "ov.json")
+	os.WriteFile(ov, []byte(fmt.Sprintf(`{"Replace":{%q:%q}}`, filepath.Join(pdir, "zz_govc_replay_test.go"), tf)), 0o644)
+	ctx, cancel := context.WithTimeout(context.Background(), 120*time.Second)
+	defer cancel()
+	cmd := exec.CommandContext(ctx, "bash", "-c", fmt.Sprintf("ulimit -v 4000000; go test -tags verif -overlay %q -vet=off -count=1 -timeout 60s -v -run '^TestGovcReplay$' %q", ov, "./"+rel))
+	cmd.Dir = mod
+	cmd.Env = append(os.Environ(), "GOFLAGS=-mod=mod", "GOPROXY=off", "GOSUMDB=off", "GOTOOLCHAIN=local")
+	out, _ := cmd.CombinedOutput()
+	s := string(out)
+	switch {
+	case strings.Contains(s, "GOVC-REPLAY panicked"):
+		return "reproduced", s
+	case strings.Contains(s, "GOVC-REPLAY returned normally"):
+		return "not reproduced (the call returned normally on the generated input)", s
+	default:
+		return "not run (the generated test did not compile or did not finish)", s
+	}
+}
